@@ -2,16 +2,23 @@
 # Round 3 intake of one seeded change: copy the agent's deliverables into
 # seeded/<ID>/<V>, then (in parallel) confirm it in the agent's scratch copy
 # and run the property's registered quick check against a scratch worktree
-# with the patch applied.   tools/seeded_round3.sh <ID> <V>
+# with the patch applied.  The check's build root is a copy of a pre-built
+# base (/tmp/br_r3_base, libraries of the unpatched tree) and both worktree
+# and build root are bind-mounted at fixed paths in a private mount namespace,
+# so that the copied cmake trees stay valid and several variants can run side
+# by side.   tools/seeded_round3.sh <ID> <V>
 set -u
 ID=$1; V=$2
 VERIF=$(cd "$(dirname "$0")/.." && pwd)
 D=$VERIF/seeded/$ID/$V
 mkdir -p $D
 cp -r /tmp/seed_out/$ID/* $D/
-W=/tmp/wt_seedrun_$ID; BR=/tmp/verif_seed_build_$ID
+W0=/tmp/wt_seedrun_C19; BR0=/tmp/verif_seed_build_C19
+W=/tmp/wt_r3_$ID; BR=/tmp/br_r3_$ID
 [ -d $W ] || git -C /repo worktree add -f $W HEAD -q
+[ -d $BR ] || cp -a /tmp/br_r3_base $BR
+mkdir -p $W0 $BR0
 ( $VERIF/tools/verify_seeded_copy.sh $ID $V /tmp/rc_$ID > /tmp/r3_verify_$ID.log 2>&1 ) &
-( $VERIF/tools/run_seeded_alt.sh $ID $D $W $BR > /tmp/r3_check_$ID.log 2>&1 ) &
+( unshare -m sh -c "mount --bind $W $W0 && mount --bind $BR $BR0 && exec $VERIF/tools/run_seeded_alt.sh $ID $D $W0 $BR0" > /tmp/r3_check_$ID.log 2>&1 ) &
 wait
 cat /tmp/r3_verify_$ID.log /tmp/r3_check_$ID.log
